@@ -104,7 +104,7 @@ Proof.
   apply core_ind3; try (intros; exact I); try (intros; reflexivity).
   - (* repeat *) intros b e l _ _ _ _ flv slv reg en. cbn [b_stat sk_stat fst].
     destruct (b_block flv (slv + 1) l b en). reflexivity.
-  - (* local *) intros ns ls at_ es l _ Hlen _ _ _ flv slv reg en. cbn [b_stat sk_stat fst].
+  - (* local *) intros ns ls at_ es l _ Hlen _ _ flv slv reg en. cbn [b_stat sk_stat fst].
     rewrite push_decls_eq, local_env by exact Hlen. reflexivity.
   - (* block *) intros ss ret l _ IH _ _ flv slv reg en. cbn [b_block sk_block fst].
     assert (H : fst (seq_stats (map (fun s => b_stat flv slv reg s) ss) en)
@@ -395,7 +395,7 @@ Proof.
     cbn [flat_map sk_exp app]. constructor; [|constructor].
     split; cbn [scope_loc]; [left; reflexivity|]. right. do 3 (apply in_or_app; right). left. reflexivity.
   - (* local *)
-    intros ns ls at_ es l _ Hlen _ Hces IHes. cbn [sk_stat m2_stat fst snd]. split.
+    intros ns ls at_ es l _ Hlen Hces IHes. cbn [sk_stat m2_stat fst snd]. split.
     + eapply scm_mono; [|apply Forall_flat_map_scm; exact IHes]. apply incl_appr. apply incl_region_marks.
     + apply Forall_rev. apply local_vars_vm.
       * intros e He. apply incl_appr. eapply incl_tran; [|apply incl_region_marks]. apply incl_flat_map_in. exact He.
